@@ -176,4 +176,46 @@ def monitorConflict (script : List Cmd) (iters : List Iter) (d : Nat) : Option S
           p.m.answers.any fun o => lower o.name == lower r'.name && o.ty == r'.ty && o.ttl > 0).map fun p =>
         s!"conflict-while-probing-but-name-kept name={hexOfBytes r'.name} ty={r'.ty} conflict-at={x.t} announced-at={p.t}"
 
+/-- The converse of `monitorConflict`: no rename without a conflict.  In a calm history with one
+    registration, when NO response read by the daemon carries, under one of the names the daemon
+    probes for (any letter case), a record whose RDATA differs from every record of that name
+    and type the daemon itself probes with - a peer that repeats our own data, with or without
+    the cache-flush bit, in whatever spelling, claims nothing - the daemon keeps its names: no
+    NameChange event. -/
+def monitorNoRename (script : List Cmd) (iters : List Iter) (d : Nat) : Option String :=
+  let nreg := (script.filter fun c => match c with | .register .. => true | _ => false).length
+  let calm := !(script.any fun c => match c with
+    | .unregister .. | .shutdown .. | .ifaces .. | .now _ => true
+    | .other ("enable" :: _) | .other ("disable" :: _) => true
+    | _ => false)
+  if daemonsOf script != 1 || nreg != 1 || !calm || !plainNames script then none else
+  let pk := sentBy iters d
+  let rxs := readBy iters d
+  let mine := (pk.filter fun q => !q.resp).flatMap fun q => q.m.authorities
+  -- our names and addresses as registered (a doubled `.local.` is cut by the crate)
+  let regs := scriptRegs script
+  let dbl : BList := [0x2E, 0x6C, 0x6F, 0x63, 0x61, 0x6C, 0x2E, 0x6C, 0x6F, 0x63, 0x61, 0x6C, 0x2E]
+  let hostForms := regs.flatMap fun o => [o.2.2.1, if dbl.isSuffixOf o.2.2.1 then o.2.2.1.take (o.2.2.1.length - 6) else o.2.2.1]
+  let ourIps := regs.flatMap fun o => o.2.2.2.filterMap SimResponder.parseIp
+  let fulls := regs.map (·.2.1)
+  let claims := rxs.any fun x =>
+    -- (a competing PROBE - a query with authority records - is a tiebreak, not judged here)
+    (!x.resp && !x.m.authorities.isEmpty) ||
+    (x.resp && (x.m.answers ++ x.m.additionals).any fun r' =>
+      match r'.rdata with
+      | .a ip | .aaaa ip =>
+        -- ours on this link: registered AND inside a subnet of the receiving interface (an address
+        -- of the service that the daemon does not use on this link is somebody else's there)
+        let onLink := (MonResponder.ifaceTable script d).getD [] |>.any fun i => i.index == x.ifi &&
+          (match SimResponder.parseIp i.ip with
+           | some ifIp => ifIp.length == ip.length && Intf.validIpOnIntf ip ifIp (SimResponder.maskOctets ip.length i.prefixLen)
+           | none => false)
+        hostForms.contains (lower r'.name) && !(ourIps.contains ip && onLink)
+      | _ =>
+        (r'.ty == 33 || r'.ty == 16) && fulls.contains (lower r'.name) &&
+          !(mine.any fun o => lower o.name == lower r'.name && o.ty == r'.ty && o.rdata == r'.rdata))
+  if claims then none else
+  (nameChanges iters d).head?.map fun ((_, o, n, _) : Nat × BList × BList × Nat) =>
+    s!"renamed-although-nobody-claimed-the-name-with-different-data old={hexOfBytes o} new={hexOfBytes n}"
+
 end Mdns.Driver.MonDuel
